@@ -27,9 +27,15 @@ func (c *decrypt3k3yCmd) Run() error {
 		return err
 	}
 
+	// remove watermark and key, otherwise result will be treated as encrypted 3k3y image again
+	imageCleared, err := fs.NewISO3k3y(imageWrapped)
+	if err != nil {
+		return err
+	}
+
 	fmt.Fprintf(os.Stderr, "Decrypting 3k3y image %s ...\n", c.Image.Name())
 
-	_, err = io.Copy(c.Output, imageWrapped)
+	_, err = io.Copy(c.Output, imageCleared)
 	return err
 }
 
